@@ -221,7 +221,7 @@ CLAIMS = {
         note='Trusted: z3 (linear integer clock constraints), the fake POSIX layer (validated sequentially against the '
              'real os/shutil/pickle on every run), the independence relation used by the sleep sets (stated in the '
              'evidence assumptions). NFS/Windows semantics, ENOSPC/EACCES injection, pickle byte formats and more than '
-             '3 concurrent operations (4 with two modifications in the thorough tier) are outside the bounds. Two '
+             '3 concurrent operations (4 with two modifications in the thorough tier) are outside the bounds. Three '
              'classes of genuine violations are recorded findings and are also reproduced with the real code on the '
              'real file system in every run.'),
     'C08': dict(
@@ -274,8 +274,9 @@ CLAIMS = {
                   '(valid -> documented attribute; invalid -> warning + attribute equals the run without the '
                   'annotation); counterexamples replayed concretely',
         category='model_checking',
-        text='One annotated parameter or return value of each of 31 C type kinds (numbers, enum, strings, records, '
-             'objects, boxed, gpointer, bare containers, callbacks incl. GDestroyNotify/GAsyncReadyCallback, aliases, '
+        text='One annotated parameter or return value of each of 33 C type kinds (numbers, enum, strings, records, '
+             'objects, boxed, gpointer, bare containers, callbacks incl. GDestroyNotify/GAsyncReadyCallback, a typedef of a callback '
+             'typedef and a callback type taking a va_list, aliases, '
              'unresolvable and foreign types, char**, by-value struct, GError**) in functions, methods, callback '
              'typedefs and virtual methods, as return value, first or last parameter: (transfer none|full|container|'
              'floating) x direction x (array); direction (in, out, out caller-/callee-allocates, inout) x nullable x '
@@ -305,9 +306,11 @@ CLAIMS = {
              'const: none; returned non-const string: full), returned char** an array of utf8, untyped pointers '
              'nullable. (b) every arrangement of <=4 parameters over {callback, GAsyncReadyCallback, GDestroyNotify, '
              'gpointer user_data, gpointer *_data, gpointer other, GError**, int} in functions, methods, callback '
-             'typedefs and virtual methods: trailing GError** removed + throws, closure/destroy indices, notified and '
-             'async scopes, nothing attached to non-callbacks. (c) a direction annotation alone on 30 type kinds: '
-             'out/inout transfer full unless caller-allocated. CrossHair "Confirmed over all paths" per partition.',
+             'typedefs and virtual methods (untyped pointers also spelled void* and gconstpointer, same roles; <=3 '
+             'parameters): trailing GError** removed + throws, closure/destroy indices, notified and '
+             'async scopes, nothing attached to non-callbacks. (c) a direction annotation alone on 33 type kinds: '
+             'out/inout transfer full unless caller-allocated. (d) a typedef of every spelling as return type: the '
+             'default transfer looks through the alias. CrossHair "Confirmed over all paths" per partition.',
         design_ref='DESIGN.md section 4, C02',
         note=CH_NOTE + ' Finite-choice inputs are fixed by solver-decided binary search (vlib/sym.py) and the '
              'pipeline then runs without opcode interception for that path. Not asserted because the statement does '
@@ -321,7 +324,7 @@ CLAIMS = {
                   'solver); structural oracle over the emitted GIR; counterexamples replayed concretely',
         category='model_checking',
         text='Scenarios (function, method, callback, virtual method, callback field, record field, class property, '
-             'signal, alias, rename-to pairs) are generated from integer/boolean inputs: one value of each of 30 C '
+             'signal, alias, rename-to pairs) are generated from integer/boolean inputs: one value of each of 33 C '
              'type kinds (resolvable, unresolvable, foreign, skipped, non-introspectable alias, va_list, long long, '
              'long double, varargs, bare containers, callbacks) x skip/transfer/direction/scope/closure/destroy/'
              '(type)/(element-type)/(array) annotations naming existing, missing and self references. Each is pushed '
@@ -343,7 +346,8 @@ CLAIMS = {
         category='model_checking',
         text='Every integer constant value (unbounded symbolic int) for every integer type spelling in '
              'ast.type_names, directly and through one or two typedef aliases, and every enumeration of 2-4 '
-             'members built from whole words with unbounded symbolic values, private flags and bitfield flag, '
+             'members built from whole words with unbounded symbolic values, private flags, bitfield flag and a member '
+             'carrying its own (skip) block, '
              'is pushed through Transformer.parse -> MainTransformer.transform -> GIRWriter; CrossHair reports '
              '"Confirmed over all paths" per partition or a counterexample that is replayed. Bounded-exhaustive '
              'within the stated word vocabulary and member counts; inconclusive partitions are listed in the evidence.',
@@ -360,7 +364,10 @@ CLAIMS = {
              'opaque behind injective quoteattr/escape stubs) the serialisation is exactly name, attributes in order, '
              'separators being whitespace only, None omitted; (c) every sequence of <=5/6 writer operations including '
              'exceptions (Exception and BaseException) raised inside tagcontext gives a document expat parses to the '
-             'expected tree with the stack and indentation restored. CrossHair "Confirmed over all paths" per partition.',
+             'expected tree with the stack and indentation restored, also while a second writer instance is open, '
+             'closed or used later; (d) a symbolic value of <=2/<=3 code points at position 1-3 of a wrapped '
+             'four-attribute list, real quoteattr: the output is the individually quoted values joined by white '
+             'space (wrapping never changes content). CrossHair "Confirmed over all paths" per partition.',
         design_ref='DESIGN.md section 4, C20',
         note=CH_NOTE + ' Names/comment text are assumed XML-representable (not escaped by the writer, not required '
              'by the property); longer strings than the bounds in (a) are outside the claim.'),
